@@ -49,6 +49,8 @@ func runC05(c *core.Ctx) error {
 	r6 := c.NewRule("R05.6", "S2", "handler calls pass args[0..n) in order; matching runs on the normalised, prefix-cut path", 20)
 	r1.Note("fixtures: %v", ex.FixtureNames())
 
+	r7 := c.NewRule("R05.7", "S1", "route-tree construction: Tails lists every static child; a split always cuts the existing node's prefix", 2)
+	checkRouteTreeS1(c, r7)
 	for _, fx := range ex.Fixtures {
 		pkg := ex.Prog.PkgBy[fx.PkgPath]
 		for _, recv := range []string{"Server", "WebhookHandler"} {
@@ -678,5 +680,115 @@ func checkOneOutcome(c *core.Ctx, r *core.Rule, key string, fn *ssa.Function) {
 	}
 	if silent == 0 && double == 0 {
 		r.Pass(fmt.Sprintf("%s: every path performs exactly one of %d outcome calls", key, len(ws)))
+	}
+}
+
+// checkRouteTreeS1: two structural necessary conditions of the radix-tree
+// construction in package gen (holds for every route set).
+func checkRouteTreeS1(c *core.Ctx, r *core.Rule) {
+	prog, err := c.Program("./gen")
+	if err != nil {
+		r.Undecided("load:gen", "-", err.Error())
+		return
+	}
+	// (a) Tails: the only exit is after the loop, and every non-parameter child contributes its head
+	if tails := prog.Func(pkgGen, "RouteNode.Tails"); tails == nil {
+		r.Undecided("anchor:Tails", "-", "gen.(*RouteNode).Tails not found")
+	} else {
+		nRet, inLoop := 0, false
+		for _, b := range tails.Blocks {
+			if _, ok := b.Instrs[len(b.Instrs)-1].(*ssa.Return); !ok {
+				continue
+			}
+			nRet++
+			// a return inside the loop body can reach… nothing; detect by: some loop header is reachable from a
+			// predecessor chain AND this block is dominated by the loop body entry — simpler: the return block must
+			// be reachable only through the loop's exit edge, i.e. it must not be dominated by a block that has a
+			// back edge successor other than through the header's false edge
+			for _, h := range tails.Blocks {
+				if len(h.Preds) >= 2 && h != b {
+					// h is a loop header if one of its preds is dominated by it
+					isHeader := false
+					for _, p := range h.Preds {
+						if h.Dominates(p) {
+							isHeader = true
+						}
+					}
+					if !isHeader {
+						continue
+					}
+					// body entry: successor of h that can reach h again
+					for _, sc := range h.Succs {
+						if reaches(sc, h) && sc.Dominates(b) {
+							inLoop = true
+						}
+					}
+				}
+			}
+		}
+		// heads appended: an append of a load of field `head`
+		appendsHead := false
+		for _, b := range tails.Blocks {
+			for _, in := range b.Instrs {
+				if call, ok := in.(*ssa.Call); ok {
+					if bi, ok := call.Common().Value.(*ssa.Builtin); ok && bi.Name() == "append" {
+						appendsHead = true
+					}
+				}
+			}
+		}
+		if nRet >= 1 && !inLoop && appendsHead {
+			r.Pass("RouteNode.Tails returns only after visiting every child (no exit inside the loop)")
+		} else {
+			r.Fail("Tails:early-exit", c.Pos(tails.Pos()), "RouteNode.Tails can return before all children were visited: a parameter followed by several different static continuations is delimited by only some of them (the others are captured into the argument or answer 404)")
+		}
+	}
+	// (b) addRoute: after parent.replaceChild(…) the existing node's prefix is cut on every path
+	ar := prog.Func(pkgGen, "RouteTree.addRoute")
+	if ar == nil {
+		r.Undecided("anchor:addRoute", "-", "gen.(*RouteTree).addRoute not found")
+		return
+	}
+	var replace ssa.CallInstruction
+	for _, call := range core.Calls(ar) {
+		if cal := call.Common().StaticCallee(); cal != nil && cal.Name() == "replaceChild" {
+			replace = call
+		}
+	}
+	var cut *ssa.Store
+	for _, b := range ar.Blocks {
+		for _, in := range b.Instrs {
+			st, ok := in.(*ssa.Store)
+			if !ok {
+				continue
+			}
+			if fa, ok := st.Addr.(*ssa.FieldAddr); ok && fieldName(fa.X.Type(), fa.Field) == "prefix" {
+				if sl, ok := st.Val.(*ssa.Slice); ok && sl.Low != nil && sl.High == nil && isFieldLoad(sl.X, "prefix") {
+					cut = st
+				}
+			}
+		}
+	}
+	if replace == nil || cut == nil {
+		r.Undecided("addRoute:shape", c.Pos(ar.Pos()), "addRoute has no replaceChild call / no `n.prefix = n.prefix[commonPrefix:]` store")
+		return
+	}
+	bad := false
+	for _, b := range ar.Blocks {
+		term := b.Instrs[len(b.Instrs)-1]
+		_, isRet := term.(*ssa.Return)
+		if !isRet {
+			continue
+		}
+		// returns reached after the split
+		after := replace.Block().Dominates(b) && (replace.Block() != b)
+		if after && !cut.Block().Dominates(b) {
+			// an error return of replaceChild itself is fine (none today); flag everything else
+			bad = true
+			r.Fail("addRoute:split-without-cut", c.Pos(term.Pos()), "after splitting a node (replaceChild) addRoute can return without cutting the common prefix from the existing node: the old routes keep their full prefix below the new node and stop matching")
+		}
+	}
+	if !bad {
+		r.Pass("addRoute: every return after a split is dominated by `n.prefix = n.prefix[commonPrefix:]`")
 	}
 }
